@@ -2,6 +2,7 @@ package main
 
 import (
 	"context"
+	"sort"
 	"encoding/json"
 	"fmt"
 	"strconv"
@@ -19,6 +20,26 @@ import (
 )
 
 func init() { gens["c09"] = genC09 }
+
+// retainedSpans collects the memory ranges of scalar slices met by deepSize; spanBytes is the size of their union
+var retainedSpans [][2]uintptr
+
+func spanBytes() int {
+	sort.Slice(retainedSpans, func(i, j int) bool { return retainedSpans[i][0] < retainedSpans[j][0] })
+	total := 0
+	var end uintptr
+	for _, sp := range retainedSpans {
+		if sp[0] >= end {
+			total += int(sp[1] - sp[0])
+			end = sp[1]
+		} else if sp[1] > end {
+			total += int(sp[1] - end)
+			end = sp[1]
+		}
+	}
+	retainedSpans = nil
+	return total
+}
 
 // deepSize: bytes retained by a value (slices by capacity, strings by length, followed pointers once)
 func deepSize(v reflect.Value, seen map[uintptr]bool) int {
@@ -42,6 +63,13 @@ func deepSize(v reflect.Value, seen map[uintptr]bool) int {
 			return 0
 		}
 		n := v.Cap() * int(v.Type().Elem().Size())
+		if k := v.Type().Elem().Kind(); k >= reflect.Bool && k <= reflect.Float64 && v.Cap() > 0 {
+			// slices of scalars may be windows into one shared array (sub-options cut from one copied buffer):
+			// the array is retained once; its extent is added when the walk is over (retainedSpans)
+			p := v.Pointer()
+			retainedSpans = append(retainedSpans, [2]uintptr{p, p + uintptr(n)})
+			return 0
+		}
 		if k := v.Type().Elem().Kind(); k == reflect.Ptr || k == reflect.Interface || k == reflect.Slice || k == reflect.String || k == reflect.Struct || k == reflect.Array {
 			for i := 0; i < v.Len(); i++ {
 				n += deepSize(v.Index(i), seen)
@@ -105,7 +133,9 @@ func measure(entry string, in []byte) (alloc, retained int, ok bool) {
 	runtime.ReadMemStats(&m1)
 	alloc = int(m1.TotalAlloc - m0.TotalAlloc)
 	if ok {
+		retainedSpans = nil
 		retained = deepSize(reflect.ValueOf(val), map[uintptr]bool{})
+		retained += spanBytes()
 	}
 	return
 }
@@ -238,6 +268,99 @@ func costFamilies(rng *rand.Rand, n int) []struct {
 			depth++
 		}
 		out = append(out, fam{"v6-relay-nesting", "v6", inner, depth})
+	}
+	// F4b: nesting with a sibling option after the nested container at every level and an innermost part that does not
+	// decode: the cost of rejecting must stay that of one pass per level, whatever the error path tries
+	{
+		sib := tlv6(18, []byte{0, 0, 0, 0}) // interface-id / opaque, zero valued
+		for _, bad := range [][]byte{tlv6(8, []byte{0, 0, 0}), {0, 1, 0, 9, 1}, tlv6(3, []byte{1, 2, 3})} {
+			inner := append([]byte{1, 1, 2, 3}, bad...)
+			depth := 0
+			for len(inner)+38+len(sib) <= n && len(inner)+38+len(sib) <= 65535 {
+				inner = append(append(append([]byte{12, byte(depth)}, make([]byte, 32)...), tlv6(9, inner)...), sib...)
+				depth++
+			}
+			out = append(out, fam{"v6-relay-nesting-bad-inner", "v6", inner, depth})
+		}
+		var ia func(room int, bad []byte) []byte
+		ia = func(room int, bad []byte) []byte {
+			if room < 16+28+8+4 {
+				return bad
+			}
+			in := ia(room-16-28-8, bad)
+			addr := append(append(make([]byte, 24), in...), tlv6(13, []byte{0, 0})...) // IA address: nested options, then a status code
+			return append(tlv6(3, append(make([]byte, 12), tlv6(5, addr)...)), tlv6(200, []byte{0, 0, 0, 0})...)
+		}
+		b := ia(n-8, tlv6(8, []byte{0, 0, 0}))
+		out = append(out, fam{"v6-ia-nesting-bad-inner", "v6", append(append([]byte{}, hdr6...), b...), 2 * (len(b) / 52)})
+	}
+	// F4c: one list-valued option filled to the size with distinct items (request list, address lists, class data,
+	// vendor sub-options, many addresses in one identity association, many names without pointers)
+	{
+		u16s := func(room int) []byte {
+			var b []byte
+			for k := 1; len(b)+2 <= room && k < 65535; k++ {
+				b = append(b, byte(k>>8), byte(k))
+			}
+			return b
+		}
+		ips := func(room int) []byte {
+			var b []byte
+			for k := 1; len(b)+16 <= room; k++ {
+				b = append(b, 0x20, 1, 0xd, 0xb8, 0, 0, 0, 0, 0, 0, 0, 0, 0, 0, byte(k>>8), byte(k))
+			}
+			return b
+		}
+		items := func(room int) []byte {
+			var b []byte
+			for k := 1; len(b)+4 <= room; k++ {
+				b = append(b, 0, 2, byte(k>>8), byte(k))
+			}
+			return b
+		}
+		subopts := func(room int, code int) []byte {
+			var b []byte
+			for k := 1; len(b)+6 <= room; k++ {
+				b = append(b, tlv6(code+k%3, []byte{byte(k >> 8), byte(k)})...)
+			}
+			return b
+		}
+		room := n - 8
+		if room > 65000 {
+			room = 65000
+		}
+		lists := []struct {
+			name string
+			body []byte
+		}{
+			{"oro", tlv6(6, u16s(room))}, {"dns", tlv6(23, ips(room))}, {"userclass", tlv6(15, items(room))},
+			{"vendorclass", tlv6(16, append([]byte{0, 0, 0, 9}, items(room-4)...))},
+			{"vendoropts", tlv6(17, append([]byte{0, 0, 0, 9}, subopts(room-4, 1)...))},
+			{"ntp", tlv6(56, func() []byte {
+				var b []byte
+				for k := 1; len(b)+20 <= room; k++ {
+					b = append(b, tlv6(1, []byte{0x20, 1, 0xd, 0xb8, 0, 0, 0, 0, 0, 0, 0, 0, 0, 0, byte(k >> 8), byte(k)})...)
+				}
+				return b
+			}())},
+			{"ia-addresses", tlv6(3, append(make([]byte, 12), func() []byte {
+				var b []byte
+				for k := 1; len(b)+28 <= room-12; k++ {
+					b = append(b, tlv6(5, append([]byte{0x20, 1, 0xd, 0xb8, 0, 0, 0, 0, 0, 0, 0, 0, 0, 0, byte(k >> 8), byte(k)}, make([]byte, 8)...))...)
+				}
+				return b
+			}()...))},
+			{"names", tlv6(24, func() []byte {
+				var b []byte
+				for k := 1; len(b)+8 <= room; k++ {
+					b = append(b, 2, byte('a'+k%26), byte('a'+(k/26)%26), 3, 'c', 'o', 'm', 0)
+				}
+				return b
+			}())},
+		}
+		for _, l := range lists {
+			out = append(out, fam{"v6-big-list-" + l.name, "v6", append(append([]byte{}, hdr6...), l.body...), 2})
+		}
 	}
 	// F5: thousands of minimal options
 	{
